@@ -18,6 +18,9 @@ import (
 type c07Params struct {
 	W      []wParams `json:"w"`
 	Repeat int       `json:"repeat,omitempty"` // consecutive transfers of the same sources into one destination
+	// Interrupt: instead of letting the transfers finish, stop-and-delete arrives before every 5th scheduler
+	// step (client side; for uploads the server does the deleting): what existed before must survive that too
+	Interrupt bool `json:"interrupt,omitempty"`
 }
 
 // c07Fresh is the reference for the fresh-name rule: name, else the first of name.0 .. name.999
@@ -128,6 +131,48 @@ func c07Run(j vs.Job) *vs.JobResult {
 	j.Decode(&p)
 	r := &vs.JobResult{Outcomes: map[string]int64{}}
 	states := map[uint64]struct{}{}
+	if p.Interrupt {
+		for _, wp := range p.W {
+			w0, res0 := runWorld(wp, vs.Config{}, nil, nil, nil)
+			if v := c07Oracle(w0, res0); v != "" {
+				r.Violate("c07:"+wp.String(), wp.String()+": "+v, nil)
+				continue
+			}
+			for step := 3; step <= res0.StepsAtDone; step += 5 {
+				if j.Deadline > 0 && time.Now().Unix() > j.Deadline {
+					r.Capped = "deadline"
+					break
+				}
+				c := wp
+				c.Stop = &wStop{Side: "client", Delete: true, Step: step}
+				w, res := runWorld(c, vs.Config{Trace: j.Replay != nil}, nil, nil, nil)
+				r.Execs++
+				r.Nontrivial++
+				r.Steps += int64(res.Sched.Steps)
+				v := ""
+				switch {
+				case len(res.Sched.Crash) > 0:
+					v = "panic: " + res.Sched.CrashString()
+				case res.Sched.Horizon:
+					v = "horizon reached"
+				default:
+					for k, pv := range w.pre {
+						if g, ok := res.DstFull[k]; !ok {
+							v = fmt.Sprintf("pre-existing %s was removed or renamed by a transfer that was stopped with 'delete'", k)
+						} else if g != pv {
+							v = fmt.Sprintf("pre-existing %s was modified by a transfer that was stopped with 'delete': %s -> %s", k, pv, g)
+						}
+					}
+				}
+				r.Outcomes[fmt.Sprintf("stop-hit=%v", res.StopHit)]++
+				if v != "" {
+					r.Violate("c07:interrupt:"+wp.String(), fmt.Sprintf("%s: %s", c.String(), v), c)
+					break
+				}
+			}
+		}
+		return r
+	}
 	for _, wp := range p.W {
 		if j.Deadline > 0 && time.Now().Unix() > j.Deadline {
 			r.Capped = "deadline"
@@ -222,7 +267,8 @@ func init() {
 		ID:    "C07",
 		Level: "exploration",
 		Rule: "prior destination state (4^3 kinds at name/name.0/name.1, full and gapped name.N series, long names) x incoming set (file, directory, two paths with one base name, directory plus file) " +
-			"x protocol x directory mode x receiving role, and the same sources transferred three times in a row; each a full transfer through the real code; distinct by construction",
+			"x protocol x directory mode x receiving role, and the same sources transferred three times in a row; each a full transfer through the real code; distinct by construction; " +
+			"24 collision configurations additionally interrupted by stop-and-delete before every 5th scheduler step (pre-existing entries must survive)",
 		Assumptions: []string{"same trusted base as C01 (server main replica, default schedule)", "snapshots compare type, size, SHA-256, permission bits and file mtime of every pre-existing entry"},
 		QuickBudget: 100, ThoroughBudget: 600, DiedIsViolation: true,
 		Jobs: func(tier string) []vs.Job {
@@ -235,6 +281,19 @@ func init() {
 					e = len(single)
 				}
 				jobs = append(jobs, vs.MkJob(fmt.Sprintf("single %d-%d", i, e), c07Params{W: single[i:e]}))
+			}
+			// interrupted transfers: stop-and-delete must not touch what existed before either
+			var intr []wParams
+			for _, dir := range []string{"up", "down"} {
+				for _, pr := range []int{0, 2} {
+					for _, pre := range []string{"c07:f--", "c07:n--", "c07:ff-"} {
+						intr = append(intr, wParams{Dir: dir, Protocol: pr, Tree: "one:T:300", DstPre: pre, Timeout: 3},
+							wParams{Dir: dir, Protocol: pr, Tree: "dir", Directory: true, DstPre: pre, Timeout: 3})
+					}
+				}
+			}
+			for i := 0; i < len(intr); i += 2 {
+				jobs = append(jobs, vs.MkJob(fmt.Sprintf("interrupted %d-%d", i, i+2), c07Params{W: intr[i : i+2], Interrupt: true}))
 			}
 			for i := 0; i < len(hist); i += 4 {
 				e := i + 4
